@@ -394,9 +394,12 @@ func (g *gen) ifStmt(d int) []stmtText {
 		return one(s, false)
 	case 7: // if(a){}else b  (only with a side-effect-free or call-only condition, K03)
 		return one("if("+c+"){}else "+simple(), true)
-	case 8: // if(a)b;else{}   (N11: only with -known)
-		if g.known {
+	case 8: // if(a)b;else{}   (N11, repaired) and the dangling-else shape around it
+		if r.Chance(1, 2) {
 			return one("if("+c+")"+simple()+";else{}", false)
+		}
+		if r.Chance(1, 2) {
+			return one("if("+c+"){if("+g.condTest(d-1).s+")for(;;){"+simple()+";break}else"+r.Pick("{}", ";")+"}else "+simple(), true)
 		}
 		return one("if("+c+")"+simple()+";else "+simple(), true)
 	default:
